@@ -361,7 +361,7 @@ Proof.
       * cbn [rev]. destruct (rev l ++ [q]) as [|x xs] eqn:E; [destruct (rev l); discriminate|]. reflexivity.
     + destruct acc; exact Wl.
     + right. exact I1.
-    + unfold len. rewrite app_length. cbn [List.length]. lia.
+    + unfold len in *. rewrite app_length. cbn [List.length] in Hn |- *. lia.
 Qed.
 
 Theorem os_meta_short l n s pad :
@@ -408,7 +408,11 @@ Proof.
   destruct (os_dict_info_ok d _ _ D Bn Bf) as [E1 E2]. rewrite E1, E2. cbn [forallb negb].
   assert (LC : len (head ++ body) = len head + len body) by (unfold len; apply app_length).
   destruct (N.ltb_spec (N.of_nat (len (head ++ body))) (N.of_nat (len head))); [lia|].
-  rewrite Nat2N.id. unfold len at 2. rewrite firstn_app, firstn_all, Nat.sub_diag. cbn [firstn]. rewrite app_nil_r.
+  assert (FH : firstn (len head) (head ++ body) = head)
+    by (unfold len; rewrite firstn_app, firstn_all, Nat.sub_diag; cbn [firstn]; apply app_nil_r).
+  assert (SH : skipn (len head) (head ++ body) = body)
+    by (unfold len; rewrite skipn_app, skipn_all, Nat.sub_diag; reflexivity).
+  rewrite Nat2N.id, FH.
   assert (HM : os_meta (S (len head)) (N.of_nat (len l)) head 0 0%N [] = POk (pairs_meta l) (0 + len (render_pairs l))).
   { apply (os_meta_ok l (S (len head)) _ head 0 0%N [] pad NE); try assumption.
     - apply (at_cur_start []).
@@ -423,8 +427,7 @@ Proof.
   rewrite HM.
   destruct (N.leb_spec (N.of_nat (len (head ++ body))) (N.of_nat (len head))).
   { destruct body; [contradiction|]. cbn [len List.length] in LC. unfold len in *. lia. }
-  unfold len at 1. rewrite skipn_app, skipn_all, Nat.sub_diag. cbn [skipn app].
-  rewrite <- EM. destruct (os_objs_ok rel b body ms 0 ctx F O FR) as [cend E]. rewrite E. reflexivity.
+  rewrite SH. rewrite <- EM. destruct (os_objs_ok rel b body ms 0 ctx F O FR) as [cend E]. rewrite E. reflexivity.
 Qed.
 
 (* /First at or beyond the end of the data: rejected, context untouched *)
